@@ -34,6 +34,24 @@ def run(chk, tier, seed):
     for bit in range(8 * (len(r["doc"]) - 1)):
         lines.append("V INTERNAL%s %s %s -" % (("", "@args", "@wpctx", "@parse")[bit % 4], r["sig"].hex(), sigcase.flip(r["doc"], bit).hex()))
         meta.append(dict(c=dict(base["c"], doc="digest"), allowed=flip_allowed))
+    # "any other digest": differences in several octets as well -- the same bit in two octets (they cancel under XOR folding), two octets swapped,
+    # every octet complemented, first / last octet only
+    n = len(r["doc"]) - 1
+    pairs = [(i, j, b) for i in range(n) for j in range(i + 1, n) for b in range(8)]
+    if tier == "quick":
+        pairs = rng.sample(pairs, 400)
+    multi = []
+    for i, j, b in pairs:
+        d = bytearray(r["doc"]); d[1 + i] ^= 1 << b; d[1 + j] ^= 1 << b; multi.append(bytes(d))
+    for _ in range(60 if tier == "quick" else 600):
+        i, j = rng.sample(range(n), 2); d = bytearray(r["doc"])
+        if d[1 + i] != d[1 + j]:
+            d[1 + i], d[1 + j] = d[1 + j], d[1 + i]; multi.append(bytes(d))
+    multi.append(bytes([r["doc"][0]]) + bytes(x ^ 0xff for x in r["doc"][1:]))
+    multi.append(r["doc"][:1] + bytes([r["doc"][1] ^ 0x80]) + r["doc"][2:]); multi.append(r["doc"][:-1] + bytes([r["doc"][-1] ^ 1]))
+    for k, dd in enumerate(multi):
+        lines.append("V INTERNAL%s %s %s -" % (("", "@args", "@wpctx", "@parse")[k % 4], r["sig"].hex(), dd.hex()))
+        meta.append(dict(c=dict(base["c"], doc="digest"), allowed=flip_allowed))
     for alg in (0, 4, 5):
         lines.append("V INTERNAL %s %s -" % (r["sig"].hex(), ksi.imprint(alg, b"x").hex()))
         meta.append(dict(c=dict(base["c"], doc="alg"), allowed=[dict(rc="OK", res="FAIL", code="GEN-04")]))
